@@ -444,7 +444,21 @@ def run(rep):
         "input_distribution": {"styles": kinds, "events": totals, "scripts": len(cases)},
         "samples": [{"case": slim(cases[i]), "impl": outs[i], "model_obs": samp.get(i)} for i in sample_ids if i < len(cases)],
         "correspondence_mismatches": len(mm), "predicate_failures": len(pred_fail),
-        "partial": "Theorems are about every interleaving of the atomic actions of Model.Fetch (any number of peers and requesters). Not covered by theorems: liveness under fairness (only the enabledness form of no-lost-wake-up is proved), tokio's internals (H-ATOM), and that run_block_fetcher issues one request per number (read off mod.rs: `next = next + 1`; two concurrent requests for one number override each other as the code comment says, witnessed by C19_override_livelock). The correspondence is single-threaded trace acceptance (event order resolves scheduler and select! nondeterminism); multi-thread perturbed runs are not included.",
+        "partial": ("Theorems quantify over every interleaving of the atomic actions of Model.Fetch (any number of peers and "
+                    "requesters, including two requesters for one number). Proved: request_conserved (exactly one place), "
+                    "no_double_accept, failure/disconnect drop + re-queue, only_announced and lowest_first (history form and step/state "
+                    "forms), no_lost_wakeup as invariant + progress_step, replayer soundness. Not proved: liveness under fairness (only "
+                    "enabledness), anything about tokio internals (H-ATOM fixes the grain), and that run_block_fetcher issues one request per "
+                    "number (read off mod.rs: `next = next + 1`; what happens otherwise is exhibited by C19_override_livelock). "
+                    "The Rust side re-creates the glue of mod.rs/runner.rs around the real Queue (no hook exists for Network::run_block_fetcher / "
+                    "run_stream), so a change confined to those two files is not seen by the correspondence. Correspondence is single-threaded "
+                    "trace acceptance: the event order reported by the implementation resolves scheduler and select! nondeterminism; "
+                    "multi-thread perturbed runs are not included."),
+        "model_corrections": ("DESIGN §5 C19 states the wake-up invariant as `seen = ver -> m = current minimum`; the code does not signal when a take "
+                              "empties the queue, so the invariant that holds (and is proved) is `seen = ver /\\ queue non-empty -> m = minimum`. "
+                              "A cancelled connection's acceptor keeps moving until it notices the cancellation (observed on the real code: "
+                              "corpus 'cancelled-connection-reobserves'), so acceptor actions do not depend on p_alive; a call taken by a "
+                              "cancelled connection is dropped at once."),
     })
     rep.assumptions += ["H-ATOM (tokio watch/oneshot/BTreeMap atomicity and versioning as documented)"]
 
